@@ -77,8 +77,11 @@ def run_case(ctx, mr, case):
     from pyctr.type.romfs import RomFSReader, RomFSFileNotFoundError, RomFSIsADirectoryError
     from fs.errors import ResourceNotFound
     rng = random.Random(case['tseed'])
-    tree = R.random_tree(rng, max_depth=6 if case['big'] else 3, max_children=40 if case['big'] else 6,
-                         max_file=300, unicode_names=True)
+    if case['big']:
+        deep = rng.random() < 0.5
+        tree = R.random_tree(rng, max_depth=6 if deep else 1, max_children=2 if deep else 40, max_file=300, unicode_names=True)
+    else:
+        tree = R.random_tree(rng, max_depth=3, max_children=5, max_file=300, unicode_names=True)
     lv3, info = R.pack_lv3(tree, hash_tables=case['hash_tables'], shuffle=random.Random(case['tseed'] + 1) if case['shuffle'] else None)
     flat = R.flatten(tree)
     mutated = None
